@@ -247,3 +247,8 @@ def replay(cex):
 
 def finding_key(cex):
     return "%s:%s" % (cex["getter"], cex["seq"])
+
+
+def fallback(item):
+    g = item["getter"]
+    return [dict(seq=q, getter=g) for q in fallback_seqs(item)]
